@@ -59,13 +59,21 @@ func (ru *Rule) onlyCallers(what string, keys []string, scope []*ssa.Function, a
 			if caller.Pkg == nil || !strings.HasPrefix(caller.Pkg.Pkg.Path()+"/", Mod) {
 				continue
 			}
-			root := fnKey(c.Root(caller))
+			okRoot := allow[fnKey(caller)]
+			if !okRoot {
+				okRoot = true
+				for _, r := range c.PinnedRoots(caller) {
+					if !allow[fnKey(r)] {
+						okRoot = false
+					}
+				}
+			}
 			key := fmt.Sprintf("[vta] %s in %s", what, fnKey(caller))
 			pos := token.NoPos
 			if e.Site != nil {
 				pos = e.Site.Pos()
 			}
-			if allow[root] || allow[fnKey(caller)] {
+			if okRoot {
 				ru.OK(key, pos, 1, "")
 			} else {
 				dyn := ""
